@@ -237,7 +237,7 @@ func c01RunOne(work string, c *c01Case) {
 			rec.stop()
 			c.TraceArgs = rec.args(idx, vh.UnHex(c.PriorHex), c.Prior)
 		}
-	case <-time.After(20 * time.Second):
+	case <-time.After(12 * time.Second):
 		c.Result = "hang"
 	}
 }
@@ -615,6 +615,19 @@ func runC01(a vh.Args, o *vh.Oracle, r *vh.Result) error {
 		}
 		if err := c01RunBatch(a, cases[i:j]); err != nil {
 			return err
+		}
+		// every hang costs a watchdog period: once a few are on record the verdict is settled, do not spend the
+		// check's time budget on collecting more of them
+		hangs := 0
+		for k := 0; k < j; k++ {
+			if cases[k].Result == "hang" {
+				hangs++
+			}
+		}
+		if hangs >= 3 {
+			r.Note("stopped after %d hanging cases (%d of %d cases run)", hangs, j, len(cases))
+			cases = cases[:j]
+			break
 		}
 	}
 	for i := range cases {
